@@ -1,7 +1,8 @@
 /-
 Finite instance facts for C10 (kernel evaluation, `decide +kernel`): geometry hypotheses of
 the generic theorems on small RotatedPlanar3DCode lattices, and the two
-documented negative instances (old assignment update D9, rotated-toric seam D10).
+documented regressions (old assignment update D9; rotated-toric seam D10: the flip table
+before the repair, and the repaired one on the same lattice).
 -/
 import PanqecVerif.Proofs.SweepGeneric
 
@@ -15,7 +16,7 @@ def GeometryOK3D (lat : Lattice) : Bool :=
 
 /-- the two decidable hypotheses of the `RotatedSweepDecoder3D` theorems -/
 def GeometryOKRot (lat : Lattice) : Bool :=
-  decide lat.stabs.Nodup && flipTableOK lat (flipFacesRot lat)
+  decide lat.stabs.Nodup && flipTableOKRot lat (flipFacesRot lat)
 
 theorem geometryOK3D_spec (lat : Lattice) (h : GeometryOK3D lat = true) :
     lat.stabs.Nodup ∧ flipTableOK lat (flipFaces3D lat) = true ∧ sweepEdgesOK3D lat = true := by
@@ -24,7 +25,7 @@ theorem geometryOK3D_spec (lat : Lattice) (h : GeometryOK3D lat = true) :
   exact ⟨h.1.1, h.1.2, h.2⟩
 
 theorem geometryOKRot_spec (lat : Lattice) (h : GeometryOKRot lat = true) :
-    lat.stabs.Nodup ∧ flipTableOK lat (flipFacesRot lat) = true := by
+    lat.stabs.Nodup ∧ flipTableOKRot lat (flipFacesRot lat) = true := by
   unfold GeometryOKRot at h
   simp only [Bool.and_eq_true, decide_eq_true_eq] at h
   exact h
@@ -52,12 +53,22 @@ theorem new_update_witness :
       (fun r => r.1.all fun st => decide (Tracks (toric3D 2 2 2) witnessD9 st)) = some true := by
   decide +kernel
 
-theorem rotToric_table_bad :
-    flipTableOK (rotToric3D 2 2 2) (flipFacesRot (rotToric3D 2 2 2)) = false := by decide +kernel
+/-- D10, before the repair: the flip table without `_wrap` against the generators of type
+    `'face'` … -/
+theorem oldRotToric_table_bad :
+    flipTableOKRot (rotToric3D 2 2 2) (oldFlipFacesRot (rotToric3D 2 2 2)) = false := by decide +kernel
 
-theorem rotToric_bad_edges :
-    flipTableBad (rotToric3D 2 2 2) (flipFacesRot (rotToric3D 2 2 2)) =
+/-- … and against the rows not flagged in `z_indices` (the hypothesis as it was stated then) -/
+theorem oldRotToric_table_bad_zidx :
+    flipTableOK (rotToric3D 2 2 2) (oldFlipFacesRot (rotToric3D 2 2 2)) = false := by decide +kernel
+
+theorem oldRotToric_bad_edges :
+    flipTableBadRot (rotToric3D 2 2 2) (oldFlipFacesRot (rotToric3D 2 2 2)) =
       [(1, 1, 1), (1, 1, 3), (1, 3, 1), (1, 3, 3), (3, 1, 1), (3, 1, 3), (2, 4, 2), (4, 2, 2)] := by
   decide +kernel
+
+/-- the repaired table on the same lattice: consistent on all ten edges -/
+theorem rotToric_table_ok_222 :
+    flipTableBadRot (rotToric3D 2 2 2) (flipFacesRot (rotToric3D 2 2 2)) = [] := by decide +kernel
 
 end Panqec.Sweep
